@@ -81,7 +81,7 @@ def place(rng, files, root, ndirs):
 def run(ctx):
     ctx.rule = ("a base set S of 2-6 valid units of all types (with references inside S) and an extra set E of 1-5 files (valid units, and broken ones: syntax error, no section, unknown key, "
                 "missing image, dangling reference, bad escape, invalid UTF-8, bad value, a directory named like a unit, a dangling symbolic link named like a unit), names disjoint, nothing in S referring to E and no valid container of E naming a pod of S (failing ones may); "
-                "also runs in which every file fails to load or to convert, and runs with 256 / 512 failing files (the exit status must not wrap); S alone and S+E each placed over 1-3 search directories with nested subdirectories in random creation order; compared service by service; non-trivial = E contains at least one broken file; "
+                "also runs in which every file fails to load or to convert, and runs with 256 / 512 failing files (the exit status must not wrap), and an unloadable file that has the NAME of a valid unit found later in the search order; S alone and S+E each placed over 1-3 search directories with nested subdirectories in random creation order; compared service by service; non-trivial = E contains at least one broken file; "
                 "distinct = distinct (S, E)")
     rng = ctx.rng
     n = ctx.volume(60, 800)
@@ -155,6 +155,33 @@ def run(ctx):
                             bad = "no error line naming %s" % b
             if bad:
                 ctx.failures.append({"op": "e2e", "base": sorted(S), "extra": {k: (show(v) if isinstance(v, (str, bytes)) else ("<directory>" if v is None else "<symlink to %s>" % v[1])) for k, v in E.items()}, "what": bad, "class": None})
+        # a file that cannot be loaded does not stand in for a valid file of the same name found later in the search order
+        for kind in ("syntax", "nosection", "invalid_utf8", "directory", "dangling"):
+            root = box.path("same_%s" % kind)
+            good = "[Container]\nImage=img\nLabel=k=v\n"
+            e2e.make_tree(root, {"late/web.container": good, "late/other.volume": "[Volume]\n", "only/web.container": good, "only/other.volume": "[Volume]\n", "early/.keep": ""})
+            bp = os.path.join(root, "early", "web.container")
+            if kind == "directory":
+                os.makedirs(bp)
+            elif kind == "dangling":
+                os.symlink("/nonexistent/web.container", bp)
+            else:
+                open(bp, "wb").write(BROKEN[kind].encode() if isinstance(BROKEN[kind], str) else BROKEN[kind])
+            rc1, out1, err1 = e2e.run_quadlet([os.path.join(root, "only")], os.path.join(root, "out"), dry_run=True)
+            rc2, out2, err2 = e2e.run_quadlet([os.path.join(root, "early"), os.path.join(root, "late")], os.path.join(root, "out"), dry_run=True)
+            s1 = {os.path.basename(k): [l for l in canon(v) if not str(l).startswith("SourcePath=")] for k, v in e2e.parse_dry_run(out1).items()}
+            s2 = {os.path.basename(k): [l for l in canon(v) if not str(l).startswith("SourcePath=")] for k, v in e2e.parse_dry_run(out2).items()}
+            ctx.evaluations += 1
+            ctx.count("same_name_broken_first:" + kind)
+            ctx.nontrivial.add(("same_name", kind))
+            errt = err2.decode("utf-8", "surrogateescape")
+            bad = None
+            if s1 != s2:
+                bad = "a %s file named web.container in an earlier search directory changes the services: %s instead of %s" % (kind, sorted(s2), sorted(s1))
+            elif rc2 == 0 or not any("early/web.container" in l and "ERROR" in l for l in errt.split("\n")):
+                bad = "the unloadable early/web.container (%s) is not reported: exit status %s" % (kind, rc2)
+            if bad:
+                ctx.failures.append({"op": "e2e", "base": ["late/web.container", "late/other.volume"], "extra": {"early/web.container": kind}, "what": bad, "class": None})
         # many failures at once: the exit status is a yes/no answer, not a count (256 failing files must not wrap to 0)
         for nbad, kind in ((256, "unknown_key"), (512, "syntax")):
             root = box.path("many_%d" % nbad)
